@@ -28,7 +28,7 @@
 namespace pika::detail {
     barrier_algorithm_base::barrier_algorithm_base(std::ptrdiff_t expected)
     {
-        std::size_t const count = (expected + 1) >> 1;
+        std::size_t const count = (static_cast<std::size_t>(expected) + 1) >> 1;
         state = std::unique_ptr<state_t[]>(new state_t[count]);
     }
 
@@ -44,7 +44,7 @@ namespace pika::detail {
         std::size_t current = pika_thread_id == pika::threads::detail::invalid_thread_id ?
             std::hash<pika::threads::detail::thread_id_type>()(
                 pika::threads::detail::get_self_id()) :
-            std::hash<std::thread::id>()(std::this_thread::get_id()) % ((expected + 1) >> 1);
+            std::hash<std::thread::id>()(std::this_thread::get_id()) % ((static_cast<std::size_t>(expected) + 1) >> 1);
         for (int round = 0;; ++round)
         {
             if (current_expected <= 1) { return true; }
